@@ -17,7 +17,14 @@ void SessionObjectStore::getObjects(CK_SLOT_ID slotID, std::set<OSObject*>& inOb
 {
 	OUT(sosGet_n)++;
 	OUT(sos_slot) = slotID;
-	if (IN(present2)) inObjects.insert(vp_obj(2));
+	if (IN(present2) && !IN(obj2_foreign)) inObjects.insert(vp_obj(2));
+}
+// the all-slots overload (C_FindObjectsInit must not use it: C14/C19 cross-token separation)
+void SessionObjectStore::getObjects(std::set<OSObject*>& objects)
+{
+	OUT(sosGet_n)++;
+	OUT(sos_slot) = (CK_ULONG)-1;
+	if (IN(present2)) objects.insert(vp_obj(2));
 }
 
 // (heap object: the function under contract deletes it on its error paths)
